@@ -8,7 +8,7 @@
     [vm_compute] as a named instance obligation. *)
 From Coq Require Import List NArith Bool.
 From SV Require Import Text.Str Text.Prog Text.ProgProofs Text.Escape Text.EscapeProofs Text.EscPipeline Text.EscPipelineProofs
-  Text.Tokenizer Text.TokenizerProofs.
+  Text.Tokenizer Text.TokenizerProofs Text.HsTable Text.HsTableProofs.
 Import ListNotations.
 Open Scope N_scope.
 
@@ -79,6 +79,42 @@ Theorem c02_quoted_embedding : forall T o,
   run_flat (handle_string T o f acc false line) (escape T ml s ++ DQ :: rest)
   = (RTok STRING (rev acc ++ s) (line + raw_lfs T ml s) false, rest).
 Proof. exact quoted_embedding. Qed.
+
+(** Round 3: [_handle_string] as written in the source.  The translator executes the loop body on abstract values and
+    emits one row per combination it can distinguish (class of the character, the [last_was_cr] flag, [allow_escapes],
+    class of the character after a backslash); [hs_interp] gives any such table a meaning.  If the rows are the model's
+    rows (instance obligation [handle_string_rows_are_the_model]), the table's interpretation is the hand model
+    [handle_string] for every input, fuel, collected prefix, flag and line ... *)
+Theorem c02_handle_string_table_is_model : forall T o rows, hs_rows_ok rows = true ->
+  forall f acc lcr line l,
+  run_flat (hs_interp T o (tb_of rows) f acc lcr line) l = run_flat (handle_string T o f acc lcr line) l.
+Proof. exact hs_rows_interp_is_model. Qed.
+
+(** ... also over the chunked reader state of the real class ... *)
+Theorem c02_handle_string_table_is_model_chunked : forall T o rows, hs_rows_ok rows = true ->
+  forall f acc lcr line l s, R l s ->
+  fst (run_chk (hs_interp T o (tb_of rows) f acc lcr line) s) = fst (run_flat (handle_string T o f acc lcr line) l).
+Proof. exact hs_rows_interp_is_model_chunked. Qed.
+
+(** ... hence the inverse law for BOTH functions as written in the source: the pipeline [p] read from [escape_text]
+    and the table [rows] read from [_handle_string]. *)
+Theorem c02_inverse_as_written : forall T p o rows ml,
+  allow_escapes o = true -> single_sub p ml = Some (excl T ml) -> tbl_ok T ml = true -> hs_rows_ok rows = true ->
+  forall s f acc line rest, (length s < f)%nat ->
+  run_flat (hs_interp T o (tb_of rows) f acc false line) (run_pipeline (esc_table T) p ml s ++ DQ :: rest)
+  = (RTok STRING (rev acc ++ s) (line + raw_lfs T ml s) false, rest).
+Proof.
+  intros T p o rows ml He Hp Hok Hr s f acc line rest Hf.
+  rewrite (hs_rows_interp_is_model T o rows Hr), (pipeline_is_escape T p ml Hp s).
+  exact (quoted_embedding T o He ml Hok s f acc line rest Hf).
+Qed.
+
+(** The row condition is not decoration: a table whose LF rows ignore the flag is rejected, and its interpretation
+    reads CR LF as two line breaks. *)
+Theorem c02_handle_string_table_refuted :
+  hs_rows_ok hs_rows_bad = false
+  /\ forall T o, fst (run_flat (hs_interp T o (tb_of hs_rows_bad) 5 [] false 1) [CR; LF; DQ]) = RTok STRING [LF; LF] 3 false.
+Proof. split; [vm_compute; reflexivity | intros T [sb sp [] sc pc co po]; reflexivity]. Qed.
 
 (** Shape of the escaped text: it is the concatenation of units, each a raw character or backslash + symbol ... *)
 Theorem c02_escape_units : forall T ml s, concat (map unit_chars (escape_units T ml s)) = escape T ml s.
